@@ -161,6 +161,11 @@ def gal(t) -> str:
     raise ValueError(t)
 
 
+def ps_depth(e) -> int:
+    d = max([ps_depth(a) for a in e.args], default=0)
+    return d + 1 if isinstance(e, PoolSum) else d
+
+
 def has_poolsum(e) -> bool:
     return bool(e.atoms(PoolSum)) if isinstance(e, sp.Basic) else False
 
